@@ -70,3 +70,15 @@ Definition flit (n d : Z) : PrimFloat.float :=
   nlit := flit;
   npow10 := fun _ => PrimFloat.nan; nlog10 := fun _ => PrimFloat.nan; nsin := fun _ => PrimFloat.nan; ncos := fun _ => PrimFloat.nan;
   nasin := fun _ => PrimFloat.nan; nacos := fun _ => PrimFloat.nan; npi := PrimFloat.nan |}.
+
+(* binary64 instance whose 10**x and log10 are finite tables recorded from the Python run under comparison
+   (libm cannot be evaluated inside Coq); a missing entry yields nan and therefore a visible disagreement *)
+Definition flookup (tbl : list (PrimFloat.float * PrimFloat.float)) (x : PrimFloat.float) : PrimFloat.float :=
+  match List.find (fun p => PrimFloat.eqb (fst p) x) tbl with Some p => snd p | None => PrimFloat.nan end.
+Definition NumFlT (p10 l10 : list (PrimFloat.float * PrimFloat.float)) : Num PrimFloat.float := {|
+  nadd := PrimFloat.add; nsub := PrimFloat.sub; nmul := PrimFloat.mul; ndiv := PrimFloat.div;
+  nabs := PrimFloat.abs; nneg := PrimFloat.opp; nsqrt := PrimFloat.sqrt;
+  nltb := PrimFloat.ltb; nleb := PrimFloat.leb; neqb := PrimFloat.eqb;
+  nlit := flit;
+  npow10 := flookup p10; nlog10 := flookup l10; nsin := fun _ => PrimFloat.nan; ncos := fun _ => PrimFloat.nan;
+  nasin := fun _ => PrimFloat.nan; nacos := fun _ => PrimFloat.nan; npi := PrimFloat.nan |}.
